@@ -260,17 +260,17 @@ theorem inv_merge {l1 l2 : List Result} {b1 : Option Result} {ob : Result}
       · exact hmin1 x hx
       · exact le_trans (not_lt.mp hlt) (hmin2 x hx)
 
-theorem inv_extendARCurrent {s o c : Coll} (hs : Inv s) (ho : Inv o)
-    (h : extendARCurrent s o = .ok c) : Inv c := by
+theorem inv_extendARBeforeFix {s o c : Coll} (hs : Inv s) (ho : Inv o)
+    (h : extendARBeforeFix s o = .ok c) : Inv c := by
   obtain ⟨l1, b1⟩ := s
   obtain ⟨l2, b2⟩ := o
   cases b2 with
-  | none => simp [extendARCurrent] at h
+  | none => simp [extendARBeforeFix] at h
   | some ob =>
     cases b1 with
-    | none => simp [extendARCurrent] at h
+    | none => simp [extendARBeforeFix] at h
     | some sb =>
-      simp only [extendARCurrent, pure, Except.pure, Except.ok.injEq] at h
+      simp only [extendARBeforeFix, pure, Except.pure, Except.ok.injEq] at h
       subst h
       have := inv_merge hs ho
       simpa [upd, better] using this
@@ -322,8 +322,8 @@ structure Impl.MutOK (I : Impl) : Prop where
   setSlice : ∀ s sl v c, Inv s → I.setSlice s sl v = .ok c → Inv c
   delSlice : ∀ s sl c, Inv s → I.delSlice s sl = .ok c → Inv c
 
-theorem current_extOK : Impl.current.ExtOK :=
-  ⟨fun _ _ _ hs ho h => inv_extendARCurrent hs ho h, fun _ _ _ hs ho h => inv_extendARCurrent hs ho h⟩
+theorem beforeFix_extOK : Impl.beforeFix.ExtOK :=
+  ⟨fun _ _ _ hs ho h => inv_extendARBeforeFix hs ho h, fun _ _ _ hs ho h => inv_extendARBeforeFix hs ho h⟩
 
 theorem fixed_extOK : Impl.fixed.ExtOK :=
   ⟨fun _ _ _ hs ho h => inv_extendARFixed hs ho h, fun _ _ _ hs ho h => inv_extendARFixed hs ho h⟩
@@ -340,7 +340,7 @@ theorem fixed_mutOK : Impl.fixed.MutOK :=
   ⟨fun _ _ _ _ _ h => bind_fixup h, fun _ _ _ _ h => bind_fixup h,
    fun _ _ _ _ _ h => bind_fixup h, fun _ _ _ _ h => bind_fixup h⟩
 
-/-- the operations of the alphabet for which the *current* code keeps the invariant -/
+/-- the operations of the alphabet for which the code *before the fix* already kept the invariant -/
 def Op.safe : Op → Bool
   | .setItem _ _ | .delItem _ | .setSlice _ _ | .delSlice _ => false
   | _ => true
@@ -610,8 +610,8 @@ def Op.arOperand : Op → M → Option Coll
 theorem extendARFixed_ok (s o : Coll) : ∃ c, extendARFixed s o = .ok c := by
   unfold extendARFixed; cases o.best <;> exact ⟨_, rfl⟩
 
-theorem extendARCurrent_ok {s o : Coll} (hs : Inv s) (ho : Inv o) (h1 : s.items ≠ []) (h2 : o.items ≠ []) :
-    ∃ c, extendARCurrent s o = .ok c := by
+theorem extendARBeforeFix_ok {s o : Coll} (hs : Inv s) (ho : Inv o) (h1 : s.items ≠ []) (h2 : o.items ≠ []) :
+    ∃ c, extendARBeforeFix s o = .ok c := by
   obtain ⟨l1, b1⟩ := s
   obtain ⟨l2, b2⟩ := o
   cases b1 with
@@ -655,28 +655,28 @@ theorem getItem_ok {s : Coll} {i : Int} (hi : (normIndex s.items.length i).isSom
 theorem bind_fixup_ok {e : Except Err Coll} {c : Coll} (h : e = .ok c) :
     (do let x ← e; pure x.fixup : Except Err Coll) = .ok c.fixup := by subst h; rfl
 
-theorem setItemCurrent_ok {s : Coll} {i : Int} (r : Result)
-    (hi : (normIndex s.items.length i).isSome = true) : ∃ c, setItemCurrent s i r = .ok c := by
+theorem setItemList_ok {s : Coll} {i : Int} (r : Result)
+    (hi : (normIndex s.items.length i).isSome = true) : ∃ c, setItemList s i r = .ok c := by
   obtain ⟨k, hk⟩ := Option.isSome_iff_exists.1 hi
-  simp only [setItemCurrent, hk, pure, Except.pure]
+  simp only [setItemList, hk, pure, Except.pure]
   exact ⟨_, rfl⟩
 
-theorem delItemCurrent_ok {s : Coll} {i : Int}
-    (hi : (normIndex s.items.length i).isSome = true) : ∃ c, delItemCurrent s i = .ok c := by
+theorem delItemList_ok {s : Coll} {i : Int}
+    (hi : (normIndex s.items.length i).isSome = true) : ∃ c, delItemList s i = .ok c := by
   obtain ⟨k, hk⟩ := Option.isSome_iff_exists.1 hi
-  simp only [delItemCurrent, hk, pure, Except.pure]
+  simp only [delItemList, hk, pure, Except.pure]
   exact ⟨_, rfl⟩
 
-theorem setSliceCurrent_ok {s : Coll} {sl : Slice} {v : List Result}
-    (h : (listSetSlice s.items sl v).toBool = true) : ∃ c, setSliceCurrent s sl v = .ok c := by
+theorem setSliceList_ok {s : Coll} {sl : Slice} {v : List Result}
+    (h : (listSetSlice s.items sl v).toBool = true) : ∃ c, setSliceList s sl v = .ok c := by
   obtain ⟨x, hx⟩ := toBool_ok h
-  simp only [setSliceCurrent, hx, bind, Except.bind, pure, Except.pure]
+  simp only [setSliceList, hx, bind, Except.bind, pure, Except.pure]
   exact ⟨_, rfl⟩
 
-theorem delSliceCurrent_ok {s : Coll} {sl : Slice}
-    (h : (listDelSlice s.items sl).toBool = true) : ∃ c, delSliceCurrent s sl = .ok c := by
+theorem delSliceList_ok {s : Coll} {sl : Slice}
+    (h : (listDelSlice s.items sl).toBool = true) : ∃ c, delSliceList s sl = .ok c := by
   obtain ⟨x, hx⟩ := toBool_ok h
-  simp only [delSliceCurrent, hx, bind, Except.bind, pure, Except.pure]
+  simp only [delSliceList, hx, bind, Except.bind, pure, Except.pure]
   exact ⟨_, rfl⟩
 
 theorem getSlice_ok {s : Coll} {sl : Slice}
@@ -732,7 +732,7 @@ theorem step_isOk_common (I : Impl) (op : Op) (m : M) (hm : Inv2 m) (hacc : list
   | mul n | clear | sort rev | reverse | copy | filter f | filterStates f | applyFunction f
   | convertStates f | swap | stash => rfl
 
-/-- with the repaired table no operation raises, or returns a plain list, on operands a plain list accepts -/
+/-- with the table of the code as it is (`Impl.fixed`) no operation raises, or returns a plain list, on operands a plain list accepts -/
 theorem step_isOk_fixed (op : Op) (m : M) (hm : Inv2 m) (hacc : listAccepts op m = true) :
     (step Impl.fixed op m).2.isOk = true := by
   by_cases h1 : op.arOperand m = none ∧ op.safe = true ∧ ∀ n, op ≠ .rmul n
@@ -746,51 +746,51 @@ theorem step_isOk_fixed (op : Op) (m : M) (hm : Inv2 m) (hacc : listAccepts op m
     | iaddAux => exact mutate_isOk (extendARFixed_ok _ _)
     | rmul n => rfl
     | setItem i r =>
-      obtain ⟨c, h⟩ := setItemCurrent_ok r hacc
+      obtain ⟨c, h⟩ := setItemList_ok r hacc
       exact mutate_isOk ⟨_, bind_fixup_ok h⟩
     | delItem i =>
-      obtain ⟨c, h⟩ := delItemCurrent_ok hacc
+      obtain ⟨c, h⟩ := delItemList_ok hacc
       exact mutate_isOk ⟨_, bind_fixup_ok h⟩
     | setSlice sl l =>
-      obtain ⟨c, h⟩ := setSliceCurrent_ok hacc
+      obtain ⟨c, h⟩ := setSliceList_ok hacc
       exact mutate_isOk ⟨_, bind_fixup_ok h⟩
     | delSlice sl =>
-      obtain ⟨c, h⟩ := delSliceCurrent_ok hacc
+      obtain ⟨c, h⟩ := delSliceList_ok hacc
       exact mutate_isOk ⟨_, bind_fixup_ok h⟩
     | _ => simp [Op.arOperand, Op.safe] at h1
 
-/-- with the current table, from a state satisfying the invariant, the only operations that fail on
+/-- with the table of the code before the fix (`Impl.beforeFix`), from a state satisfying the invariant, the only operations that fail on
 operands a plain list accepts are `n * res` (plain list) and `extend` / `+=` with an `AnnealResults`
 operand when the receiver or the operand is empty -/
-theorem step_isOk_current (op : Op) (m : M) (hm : Inv2 m) (hacc : listAccepts op m = true)
+theorem step_isOk_beforeFix (op : Op) (m : M) (hm : Inv2 m) (hacc : listAccepts op m = true)
     (hr : ∀ n, op ≠ .rmul n)
     (hne : ∀ o, op.arOperand m = some o → m.cur.items ≠ [] ∧ o.items ≠ []) :
-    (step Impl.current op m).2.isOk = true := by
+    (step Impl.beforeFix op m).2.isOk = true := by
   by_cases h1 : op.arOperand m = none ∧ op.safe = true
   · exact step_isOk_common _ op m hm hacc h1.1 h1.2 hr
   · cases op with
     | extendAR l =>
       obtain ⟨h2, h3⟩ := hne _ rfl
-      exact mutate_isOk (extendARCurrent_ok hm.1 (inv_construct l) h2 h3)
+      exact mutate_isOk (extendARBeforeFix_ok hm.1 (inv_construct l) h2 h3)
     | iaddAR l =>
       obtain ⟨h2, h3⟩ := hne _ rfl
-      exact mutate_isOk (extendARCurrent_ok hm.1 (inv_construct l) h2 h3)
+      exact mutate_isOk (extendARBeforeFix_ok hm.1 (inv_construct l) h2 h3)
     | extendSelf =>
       obtain ⟨h2, h3⟩ := hne _ rfl
-      exact mutate_isOk (extendARCurrent_ok hm.1 hm.1 h2 h3)
+      exact mutate_isOk (extendARBeforeFix_ok hm.1 hm.1 h2 h3)
     | iaddSelf =>
       obtain ⟨h2, h3⟩ := hne _ rfl
-      exact mutate_isOk (extendARCurrent_ok hm.1 hm.1 h2 h3)
+      exact mutate_isOk (extendARBeforeFix_ok hm.1 hm.1 h2 h3)
     | extendAux =>
       obtain ⟨h2, h3⟩ := hne _ rfl
-      exact mutate_isOk (extendARCurrent_ok hm.1 hm.2 h2 h3)
+      exact mutate_isOk (extendARBeforeFix_ok hm.1 hm.2 h2 h3)
     | iaddAux =>
       obtain ⟨h2, h3⟩ := hne _ rfl
-      exact mutate_isOk (extendARCurrent_ok hm.1 hm.2 h2 h3)
-    | setItem i r => exact mutate_isOk (setItemCurrent_ok r hacc)
-    | delItem i => exact mutate_isOk (delItemCurrent_ok hacc)
-    | setSlice sl l => exact mutate_isOk (setSliceCurrent_ok hacc)
-    | delSlice sl => exact mutate_isOk (delSliceCurrent_ok hacc)
+      exact mutate_isOk (extendARBeforeFix_ok hm.1 hm.2 h2 h3)
+    | setItem i r => exact mutate_isOk (setItemList_ok r hacc)
+    | delItem i => exact mutate_isOk (delItemList_ok hacc)
+    | setSlice sl l => exact mutate_isOk (setSliceList_ok hacc)
+    | delSlice sl => exact mutate_isOk (delSliceList_ok hacc)
     | _ => simp [Op.arOperand, Op.safe] at h1
 
 end Qv.Res
